@@ -5,6 +5,7 @@ CONSTANTS
   Urgent = FALSE
   Guard = TRUE
   SS = TRUE
+  Exp = {2}
   Pushes = FALSE
 VIEW View
 INVARIANTS TypeOK C08 C11_First
